@@ -160,17 +160,20 @@ def workerStep (cfg : RCfg) (w : Worker) (ex : Exists) (e : Entry) : Worker × E
 
 def setAt {α} (l : List α) (i : Nat) (a : α) : List α := l.set i a
 
-/-- `distributeTask`: the worker an entry goes to (`idx` = the previous choice) -/
-def workerOf (n : Nat) (e : Entry) (idx : Nat) : Nat :=
+/-- `distributeTask`: the worker an entry goes to (`idx` = the previous choice). Entries
+    are routed by the key they are REPLAYED to (`dstKey`: under `ReplaceHashTag` two
+    snapshot keys such as `{a}b` and `ab` are written to one target key and must reach
+    one worker — /repo 630424b); without `ReplaceHashTag` that is the snapshot key. -/
+def workerOf (cfg : RCfg) (n : Nat) (e : Entry) (idx : Nat) : Nat :=
   -- every entry except a function library belongs to a key ("" is a valid key)
-  if e.key.length > 0 ∨ otypeOf e.obj.rtype ≠ some .function then fnv32a e.key % n else (idx + 1) % n
+  if e.key.length > 0 ∨ otypeOf e.obj.rtype ≠ some .function then fnv32a (dstKey cfg e.key) % n else (idx + 1) % n
 
 /-- `distributeTask` + workers, in snapshot order -/
 def fanOut (cfg : RCfg) : List Entry → Nat → List Worker → Exists → List Worker × Exists × Bool
   | [], _, ws, ex => (ws, ex, true)
   | e :: es, idx, ws, ex =>
     let n := ws.length
-    let idx' := workerOf n e idx
+    let idx' := workerOf cfg n e idx
     let w := ws.getD idx' {}
     let (w', ex', ok) := workerStep cfg w ex e
     if ok then fanOut cfg es idx' (ws.set idx' w') ex'
@@ -182,7 +185,7 @@ def fanOutTrace (cfg : RCfg) : List Entry → Nat → List Worker → Exists →
   | [], _, _, _ => []
   | e :: es, idx, ws, ex =>
     let n := ws.length
-    let idx' := workerOf n e idx
+    let idx' := workerOf cfg n e idx
     let w := ws.getD idx' {}
     let (w', ex', ok) := workerStep cfg w ex e
     (idx', w'.log.drop w.log.length) :: (if ok then fanOutTrace cfg es idx' (ws.set idx' w') ex' else [])
